@@ -1,11 +1,271 @@
 (* C02 — TCP transfers complete and close in order; no connection stalls silently.
-   Statements about Model/Tcp.v (validated against the Go code by lock-step traces, Corr/C02.v).
-   (work in progress header; see the final header below) *)
+
+   All statements are about Model/Tcp.v, the executable model of the established-state logic of
+   protocol/transport/tcp (rcv.go, snd.go, reno.go, timer.go, parts of connect.go / endpoint.go), which
+   is tied to the Go code by lock-step traces (Corr/TcpTrace.v, Corr/C02.v).  [run t es] folds
+   [step] over an arbitrary event list (segments from the peer, application writes / reads /
+   shutdown of the write side, expiries of the retransmission timer); [run_out] are the frames
+   emitted.  Real time is not modelled: a timer expiry is an event.  So the liveness clauses of the
+   property are given in safety form (what makes progress possible in every reachable state) plus
+   finite-measure termination facts; "eventually" under a fair network / Go runtime is NOT proved
+   (level: partial for liveness).
+
+   Invariants of all reachable states ([reach_inv] = write-list invariant of C01 (Proofs/TcpSndInvP.v)
+   + close bookkeeping + timer invariant; [rcv_buf_inv]); a freshly established connection
+   satisfies them (Examples fresh_reach_inv, fresh_rcv_buf_inv, fresh_idle in Proofs/TcpClose*P.v):
+     C02_reachable_invariants, C02_rcv_buf_invariant
+
+   "never goes permanently quiet with data or a FIN outstanding ... recovered from by
+    retransmission ... or the connection fails with an explicit error":
+     C02_timer_armed_when_outstanding   in every reachable connected state, sndUna <> sndNxt (data or a
+                                        FIN in flight) implies the retransmission timer is running
+     C02_outstanding_implies_progress   ... and the expiry of that timer either resets the connection
+                                        (RST, error state) when rto >= 60 s, or doubles rto, re-arms the
+                                        timer and retransmits the oldest unacknowledged segment (nothing
+                                        is emitted only if the peer's window is closed for it)
+     C02_rto_backoff_terminates         with a silent peer, at most 10 expiries (exactly
+                                        expiries_left 9 rto, the number of doublings to 60 s, + 1) lead
+                                        to the error state; every earlier expiry re-arms the timer
+   "a closed receive window [is] recovered from by ... probing": FALSE of the code (no persist timer):
+     C02_zero_window_stall_refuted      a reachable state with data queued behind a zero window, nothing
+                                        in flight, timer not running, in which no run without a segment
+                                        from the peer ever emits anything but pure ACKs, nor fails
+     C02_stalled_state_is_stuck         the same for EVERY state of that shape (one step)
+     C02_no_silent_stall_partial        what does hold: the stall needs "nothing in flight"; with
+                                        anything in flight (also behind a zero window) the timer runs
+                                        and backs off to an explicit error (= the two theorems above)
+
+   "everything written before the write side is shut down is ... delivered ..., followed by
+    end-of-stream" (sender side; delivery itself needs the peer and the network: not proved):
+     C02_fin_after_all_data             every FIN frame ever emitted is empty, numbered
+                                        iss+1+|everything accepted|, and emitted after the shutdown
+     C02_data_before_fin                no data frame carries FIN or reaches beyond that number
+     C02_fin_queued_last                after the shutdown the write list is data elements followed by
+                                        exactly one FIN element (or everything incl. the FIN is
+                                        acknowledged); sndNxtList counts the FIN as one number
+     C02_no_fin_before_shutdown         before it, data only
+     C02_shutdown_takes_effect, C02_no_write_after_shutdown
+   "end-of-stream after which no data ever appears" (receiver side):
+     C02_read_eof_iff                   a read on a connected endpoint reports end of stream exactly when
+                                        the receive queue is empty and the peer's FIN has been consumed;
+                                        it returns the first queued chunk exactly when there is one
+     C02_no_data_after_eof              once the FIN is consumed the receive queue only shrinks
+     C02_eof_is_final                   ... so after end of stream the queue stays empty for ever
+   "both endpoints end in the closed state without error" (one endpoint, scripted lossless peer):
+     C02_closed_iff_all_done            connected -> the exit test (rcv closed, snd closed, FIN acked) is
+                                        false; closed -> it is true (all reachable states)
+     C02_error_is_final, C02_closed_is_final   closed is never reached from the error state
+     C02_orderly_close_active / _passive / _simultaneous / _fin_ack
+                                        from ANY state in which everything written is acknowledged, the
+                                        closing exchange in each of the four possible orders ends in the
+                                        closed state having emitted exactly [FIN|ACK; ACK of the peer's
+                                        FIN] (resp. [ACK; FIN|ACK]) and no RST *)
 From Coq Require Import ZArith List Bool.
-From NP Require Import Model.Seqnum Model.Tcp Proofs.TcpCloseP.
+From NP Require Import Model.Seqnum Model.Tcp Proofs.SeqnumP.
+From NP Require Proofs.TcpSndInvP Proofs.TcpSndP.
+From NP Require Import Proofs.TcpCloseP Proofs.TcpCloseOrderP Proofs.TcpCloseSeqP.
 Import ListNotations.
 Open Scope Z_scope.
 
-Theorem C02_timer_armed_when_outstanding : forall t es, timer_ok t -> timer_ok (run t es).
+(* ---------------------------------------------------------------- invariants of all reachable states *)
+
+Theorem C02_reachable_invariants : forall iss W t es,
+  reach_inv iss W t -> Forall TcpSndP.ev_ok es -> len (W ++ TcpSndP.written t es) < 2^30 ->
+  reach_inv iss (W ++ TcpSndP.written t es) (run t es).
+Proof. exact reach_inv_run. Qed.
+Print Assumptions C02_reachable_invariants.
+
+Theorem C02_rcv_buf_invariant : forall t e, rcv_buf_inv t -> rcv_buf_inv (fst (step t e)).
+Proof. exact step_rcv_buf_inv. Qed.
+Print Assumptions C02_rcv_buf_invariant.
+
+(* ---------------------------------------------------------------- never quiet with something in flight *)
+
+Theorem C02_timer_armed_when_outstanding : forall t es,
+  (estate t = stConnected -> sndUna (SN t) <> sndNxt (SN t) -> tstate (SN t) = tEnabled) ->
+  estate (run t es) = stConnected -> sndUna (SN (run t es)) <> sndNxt (SN (run t es)) ->
+  tstate (SN (run t es)) = tEnabled.
 Proof. exact timer_armed_when_outstanding. Qed.
 Print Assumptions C02_timer_armed_when_outstanding.
+
+Theorem C02_outstanding_implies_progress : forall iss W t,
+  reach_inv iss W t -> estate t = stConnected -> sndUna (SN t) <> sndNxt (SN t) ->
+  tstate (SN t) = tEnabled /\
+  let t' := fst (step t ERto) in
+  (maxRTO <= rto (SN t) /\ estate t' = stError /\
+   out t' = [mkF (sndUna (SN t)) (rcvNxt (RC t)) (Z.lor fAck fRst) 0 []]) \/
+  (rto (SN t) < maxRTO /\ rto_ready t' /\ rto (SN t') = 2 * rto (SN t) /\ sndUna (SN t') = sndUna (SN t) /\
+   (out t' = [] \/
+    exists f w rest, out t' = [f] /\ wsent (SN t) ++ wunsent (SN t) = w :: rest /\
+      f_seq f = sndUna (SN t) /\ f_flags f = w_flags w /\
+      f_data f = takeZ (len (f_data f)) (w_data w) /\ (w_data w <> [] -> f_data f <> []))).
+Proof. exact outstanding_implies_progress. Qed.
+Print Assumptions C02_outstanding_implies_progress.
+
+Theorem C02_rto_backoff_terminates : forall iss W t,
+  reach_inv iss W t -> estate t = stConnected -> sndUna (SN t) <> sndNxt (SN t) -> minRTO <= rto (SN t) ->
+  let k := expiries_left 9 (rto (SN t)) in
+  (1 <= k <= 10)%nat /\
+  estate (run t (repeat ERto k)) = stError /\
+  (forall j, (j < k)%nat ->
+     rto_ready (run t (repeat ERto j)) /\ rto (SN (run t (repeat ERto j))) = 2 ^ Z.of_nat j * rto (SN t) /\
+     sndUna (SN (run t (repeat ERto j))) = sndUna (SN t)).
+Proof. exact rto_backoff_reachable. Qed.
+Print Assumptions C02_rto_backoff_terminates.
+
+(* ---------------------------------------------------------------- the zero-window stall (finding) *)
+
+Theorem C02_stalled_state_is_stuck : forall t e,
+  stalled t -> (forall sg nr, e <> ESeg sg nr) ->
+  let t' := fst (step t e) in
+  stalled t' /\ Forall pure_ack (out t') /\
+  sndUna (SN t') = sndUna (SN t) /\ sndNxt (SN t') = sndNxt (SN t).
+Proof. exact stalled_state_is_stuck. Qed.
+Print Assumptions C02_stalled_state_is_stuck.
+
+Theorem C02_zero_window_stall_refuted :
+  exists t, (exists es, t = run (fresh_conn 1000 5000 1460 30000) es) /\
+    estate t = stConnected /\ wunsent (SN t) <> [] /\ sndWnd (SN t) = 0 /\
+    sndUna (SN t) = sndNxt (SN t) /\ tstate (SN t) <> tEnabled /\
+    forall es', no_segment es' ->
+      estate (run t es') = stConnected /\ wunsent (SN (run t es')) <> [] /\
+      tstate (SN (run t es')) <> tEnabled /\ Forall pure_ack (run_out t es').
+Proof. exact zero_window_stall_witness. Qed.
+Print Assumptions C02_zero_window_stall_refuted.
+
+Theorem C02_no_silent_stall_partial : forall iss W t,
+  reach_inv iss W t -> estate t = stConnected -> sndUna (SN t) <> sndNxt (SN t) -> minRTO <= rto (SN t) ->
+  tstate (SN t) = tEnabled /\
+  exists k, (1 <= k <= 10)%nat /\ estate (run t (repeat ERto k)) = stError.
+Proof. exact no_silent_stall_partial. Qed.
+Print Assumptions C02_no_silent_stall_partial.
+
+(* ---------------------------------------------------------------- FIN after all data (sender side) *)
+
+Theorem C02_fin_after_all_data : forall iss W0 t0 es,
+  TcpSndInvP.Inv iss W0 t0 -> Forall TcpSndP.ev_ok es -> len (W0 ++ TcpSndP.written t0 es) < 2^30 ->
+  forall f, In f (run_out t0 es) -> has (f_flags f) fFin = true ->
+  f_data f = [] /\ f_seq f = seq_of iss (len (W0 ++ TcpSndP.written t0 es)) /\ sndClosedE (run t0 es) = true.
+Proof. exact TcpSndP.fin_after_all_data. Qed.
+Print Assumptions C02_fin_after_all_data.
+
+Theorem C02_data_before_fin : forall iss W0 t0 es,
+  TcpSndInvP.Inv iss W0 t0 -> Forall TcpSndP.ev_ok es -> len (W0 ++ TcpSndP.written t0 es) < 2^30 ->
+  forall g, In g (run_out t0 es) -> f_data g <> [] ->
+  has (f_flags g) fFin = false /\
+  exists off, f_seq g = seq_of iss off /\ 0 <= off /\ off + len (f_data g) <= len (W0 ++ TcpSndP.written t0 es).
+Proof. exact TcpSndP.data_before_fin. Qed.
+Print Assumptions C02_data_before_fin.
+
+Theorem C02_fin_queued_last : forall iss W t,
+  TcpSndInvP.Inv iss W t -> sndClosedE t = true ->
+  sndNxtList (SN t) = seq_of iss (len W + 1) /\
+  ((wsent (SN t) ++ wunsent (SN t) = [] /\ sndUna (SN t) = sndNxtList (SN t)) \/
+   exists l f, wsent (SN t) ++ wunsent (SN t) = l ++ [f] /\
+     Forall (fun w => w_data w <> []) l /\ w_data f = []).
+Proof. exact fin_queued_last. Qed.
+Print Assumptions C02_fin_queued_last.
+
+Theorem C02_no_fin_before_shutdown : forall iss W t,
+  TcpSndInvP.Inv iss W t -> sndClosedE t = false ->
+  sndNxtList (SN t) = seq_of iss (len W) /\
+  Forall (fun w => w_data w <> []) (wsent (SN t) ++ wunsent (SN t)).
+Proof. exact no_fin_before_shutdown. Qed.
+Print Assumptions C02_no_fin_before_shutdown.
+
+Theorem C02_shutdown_takes_effect : forall iss t,
+  estate t = stConnected -> sndClosedE (fst (step t EShutW)) = true.
+Proof. exact TcpSndP.shutdown_closes. Qed.
+Print Assumptions C02_shutdown_takes_effect.
+
+Theorem C02_no_write_after_shutdown : forall iss W t es,
+  TcpSndInvP.Inv iss W t -> Forall TcpSndP.ev_ok es -> sndClosedE t = true ->
+  TcpSndP.written t es = [] /\ sndClosedE (run t es) = true.
+Proof. exact TcpSndP.no_write_after_shutdown. Qed.
+Print Assumptions C02_no_write_after_shutdown.
+
+(* ---------------------------------------------------------------- end of stream (receiver side) *)
+
+Theorem C02_read_eof_iff : forall t, estate t = stConnected -> rcv_buf_inv t ->
+  (snd (step t ERead) = RErr (-6) <-> rcvList t = [] /\ rcvClosedE t = true) /\
+  (forall v, snd (step t ERead) = RBytes v <-> exists r, rcvList t = v :: r).
+Proof. exact read_eof_iff. Qed.
+Print Assumptions C02_read_eof_iff.
+
+Theorem C02_no_data_after_eof : forall t es, rclosed (RC t) = true ->
+  rclosed (RC (run t es)) = true /\ rcvNxt (RC (run t es)) = rcvNxt (RC t) /\
+  exists k, rcvList (run t es) = skipn k (rcvList t).
+Proof. exact no_data_after_eof. Qed.
+Print Assumptions C02_no_data_after_eof.
+
+Theorem C02_eof_is_final : forall t es, rclosed (RC t) = true -> rcvList t = [] -> rcvList (run t es) = [].
+Proof. exact eof_is_final. Qed.
+Print Assumptions C02_eof_is_final.
+
+(* ---------------------------------------------------------------- reaching the closed state *)
+
+Theorem C02_closed_iff_all_done : forall t es, close_inv t ->
+  let t' := run t es in
+  sclosed (SN t') = sndClosedE t' /\ rclosed (RC t') = rcvClosedE t' /\
+  (estate t' = stConnected ->
+     rclosed (RC t') && sclosed (SN t') && (sndUna (SN t') =? sndNxtList (SN t')) = false) /\
+  (estate t' = stClosed ->
+     rclosed (RC t') && sclosed (SN t') && (sndUna (SN t') =? sndNxtList (SN t')) = true) /\
+  (estate t' = stConnected \/ estate t' = stClosed \/ estate t' = stError).
+Proof. exact closed_iff_all_done_explicit. Qed.
+Print Assumptions C02_closed_iff_all_done.
+
+Theorem C02_error_is_final : forall t es, estate t = stError -> estate (run t es) = stError.
+Proof. exact error_is_final. Qed.
+Print Assumptions C02_error_is_final.
+
+Theorem C02_closed_is_final : forall t es, estate t = stClosed -> estate (run t es) = stClosed.
+Proof. exact closed_is_final. Qed.
+Print Assumptions C02_closed_is_final.
+
+(* the closing exchange without loss, from any state in which everything written is acknowledged;
+   n = our next sequence number, r = the peer's; the peer's segments carry arbitrary windows,
+   timestamp flags consistent with the negotiation, arbitrary RTT samples *)
+
+Theorem C02_orderly_close_active : forall n r t ts w1 e1 nr1 w2 e2 nr2,
+  idle_state n r false t -> (tsOk t && negb ts) = false ->
+  let es := [EShutW; ESeg (mkSeg r (add n 1) fAck w1 [] ts e1) nr1;
+             ESeg (mkSeg r (add n 1) (Z.lor fAck fFin) w2 [] ts e2) nr2] in
+  estate (run t es) = stClosed /\
+  exists f1 f2, run_out t es = [f1; f2] /\
+    (f_seq f1 = n /\ f_ack f1 = r /\ f_flags f1 = Z.lor fAck fFin /\ f_data f1 = []) /\
+    (f_seq f2 = add n 1 /\ f_ack f2 = u32 (r + 1) /\ f_flags f2 = fAck /\ f_data f2 = []).
+Proof. exact orderly_close_active. Qed.
+Print Assumptions C02_orderly_close_active.
+
+Theorem C02_orderly_close_passive : forall n r t ts w1 e1 nr1 w2 e2 nr2,
+  idle_state n r false t -> (tsOk t && negb ts) = false ->
+  let es := [ESeg (mkSeg r n (Z.lor fAck fFin) w1 [] ts e1) nr1; EShutW;
+             ESeg (mkSeg (u32 (r + 1)) (add n 1) fAck w2 [] ts e2) nr2] in
+  estate (run t es) = stClosed /\
+  exists f1 f2, run_out t es = [f1; f2] /\
+    (f_seq f1 = n /\ f_ack f1 = u32 (r + 1) /\ f_flags f1 = fAck /\ f_data f1 = []) /\
+    (f_seq f2 = n /\ f_ack f2 = u32 (r + 1) /\ f_flags f2 = Z.lor fAck fFin /\ f_data f2 = []).
+Proof. exact orderly_close_passive. Qed.
+Print Assumptions C02_orderly_close_passive.
+
+Theorem C02_orderly_close_simultaneous : forall n r t ts w1 e1 nr1 w2 e2 nr2,
+  idle_state n r false t -> (tsOk t && negb ts) = false ->
+  let es := [EShutW; ESeg (mkSeg r n (Z.lor fAck fFin) w1 [] ts e1) nr1;
+             ESeg (mkSeg (u32 (r + 1)) (add n 1) fAck w2 [] ts e2) nr2] in
+  estate (run t es) = stClosed /\
+  exists f1 f2, run_out t es = [f1; f2] /\
+    (f_seq f1 = n /\ f_ack f1 = r /\ f_flags f1 = Z.lor fAck fFin /\ f_data f1 = []) /\
+    (f_seq f2 = add n 1 /\ f_ack f2 = u32 (r + 1) /\ f_flags f2 = fAck /\ f_data f2 = []).
+Proof. exact orderly_close_simultaneous. Qed.
+Print Assumptions C02_orderly_close_simultaneous.
+
+Theorem C02_orderly_close_fin_ack : forall n r t ts w1 e1 nr1,
+  idle_state n r false t -> (tsOk t && negb ts) = false ->
+  let es := [EShutW; ESeg (mkSeg r (add n 1) (Z.lor fAck fFin) w1 [] ts e1) nr1] in
+  estate (run t es) = stClosed /\
+  exists f1 f2, run_out t es = [f1; f2] /\
+    (f_seq f1 = n /\ f_ack f1 = r /\ f_flags f1 = Z.lor fAck fFin /\ f_data f1 = []) /\
+    (f_seq f2 = add n 1 /\ f_ack f2 = u32 (r + 1) /\ f_flags f2 = fAck /\ f_data f2 = []).
+Proof. exact orderly_close_fin_ack. Qed.
+Print Assumptions C02_orderly_close_fin_ack.
